@@ -384,4 +384,10 @@ def build(tier):
                   ".bool().any() is 'some env has a non-zero flag'"]
     P.uncovered += ["continuity of the transition stream across env.reset() between agents (caller history)",
                     "float rounding of the discounted sum"]
+    P.native.append(dict(name='nstep', adapter='c10:nstep', thorough_only=True, payload={"mode": "search"},
+                         bound='streams: exhaustive placements of terminal flags for n <= 3, envs <= 2, plus random streams with wrap-around, against the definition'))
+    P.native.append(dict(name='clear', adapter='c10:clear', thorough_only=True, payload={"mode": "search"},
+                         bound='clear-then-add sequences: no transition of the previous stream survives'))
+    P.native.append(dict(name='per_nstep', adapter='c10:per_nstep', thorough_only=True, payload={"mode": "search"},
+                         bound='prioritised + n-step index alignments (column-shaped indices)'))
     return P
